@@ -10,7 +10,7 @@ from sa.terms import T, const, sym, call, mk
 from sa.values import (Val, Arr, Frame, Rot, Seq, DictV, Obj, Func, ClassRef, Ref, Unk, Space, K, pyval, is_pyconst,
                        to_term, NotConst, Unsupported)
 from sa.interp import Interp
-from sa.harness import motl_frame, motl_obj, P, typed, assume_map, half_integer_sampler, pos_sampler, int_sampler
+from sa.harness import motl_frame, motl_obj, P, typed, assume_map, half_integer_sampler, pos_sampler, int_sampler, empty_test_polarity
 from sa.report import Obligation
 from sa.srcmodel import AnchorMissing, norm_text
 
@@ -631,7 +631,7 @@ def selectors_obligation(prop):
     def run(ctx):
         quals = [q for q in ENTRIES[prop] if ctx.prog.has(q)]
         mods = sorted({q.split(".")[0] for q in quals})
-        n_fn = n_sel = n_acc = n_flag = 0
+        n_fn = n_sel = n_acc = n_flag = n_pos = 0
         for q, m, fn in ctx.prog.functions():
             if q.split(".")[0] not in mods:
                 continue
@@ -667,11 +667,27 @@ def selectors_obligation(prop):
                 ctx.finding(q, use, f"`~{name}`: `{name}` is a plain Python bool here (only ever assigned True / False), and `~` on it is the integer "
                             "complement, not `not`: ~True is -2 and ~False is -1, both true in a test, so the condition never selects the other "
                             "branch (numpy booleans, where `~` means not, are another type)", use, m)
+            def _gives_position(c_, m_=m):
+                d_ = ctx.prog.resolve(m_, c_.func)
+                t_ = ctx.prog.repo_qual(d_) if d_ else None
+                if t_ is None:
+                    return False
+                try:
+                    _, f_ = ctx.prog.func(t_)
+                except Exception:  # noqa
+                    return False
+                return dataflow.returns_position(f_)
+
+            pt, ex4 = dataflow.positions_as_truth(m, fn, _gives_position)
+            n_pos += ex4
+            for use, name in pt:
+                ctx.finding(q, use, f"`{name}` is a position (the index of a found element: 0 is the first one; nothing found is None or an error) and is "
+                            "used as a truth value: the first position takes the branch meant for \"not found\" (test `is not None` instead)", use, m)
         ctx.count(n_fn, {"modules": mods, "functions scanned": n_fn, "named selectors examined": n_sel, "accumulators examined": n_acc,
-                         "Python bool flags examined": n_flag})
+                         "Python bool flags examined": n_flag, "positions examined": n_pos})
 
     return Obligation("OX.S", "def-use rules over the property's modules: named row selectors are not reused after the column they test was rewritten; "
-                              "a result started empty before a loop is extended, not overwritten, inside it; `~` is not applied to a plain Python bool",
+                              "a result started empty before a loop is extended, not overwritten, inside it; `~` is not applied to a plain Python bool; a position (list.index, argmax, a repository function returning one) is not used as a truth value",
                       run, floor=1)
 
 
